@@ -622,6 +622,14 @@ func (p *Parser) parseInfixExpression(left ast.Expression) ast.Expression {
 
 // parsePostfixExpression parses a postfix-based expression.
 func (p *Parser) parsePostfixExpression() ast.Expression {
+
+	// Only a variable can be incremented, or decremented.
+	if p.prevToken.Type != token.IDENT {
+		msg := fmt.Sprintf("%s can only be applied to a variable, not to %s around %s", p.curToken.Literal, p.prevToken.Literal, p.curToken.Position())
+		p.errors = append(p.errors, msg)
+		return nil
+	}
+
 	expression := &ast.PostfixExpression{
 		Token:    p.prevToken,
 		Operator: p.curToken.Literal,
